@@ -5,6 +5,7 @@
 #include <glm/glm.hpp>
 #include <glm/gtc/packing.hpp>
 #include <immintrin.h>
+#include <cpuid.h>
 using namespace ref;
 
 // ---- software model -------------------------------------------------------
@@ -114,7 +115,7 @@ VF_OP(unpackHalf_vec3, In4H, "hhhh"){ chk_unpackHalfL<3>(in,c); }
 VF_OP(unpackHalf_vec4, In4H, "hhhh"){ chk_unpackHalfL<4>(in,c); }
 
 static void workload(){
-	g_f16c=__builtin_cpu_supports("f16c");
+	{ unsigned a=0,b=0,c2=0,d=0; g_f16c= __get_cpuid(1,&a,&b,&c2,&d) && ((c2>>29)&1); } // CPUID.1:ECX.F16C (clang 14 has no "f16c" string for __builtin_cpu_supports)
 	vf::note("f16c_cross_check", g_f16c?"CPU F16C available: software oracle compared against _cvtsh_ss/_cvtss_sh on every input":"F16C not available: software oracle only");
 	// stride: the sanitizer re-run (C20) strides the float sweep by a seed-dependent odd stride
 	u64 stride=1; { auto it=vf::cfg().extra.find("stride"); if(it!=vf::cfg().extra.end()) stride=strtoull(it->second.c_str(),0,10)|1; }
